@@ -137,6 +137,7 @@ class Case:
         self.handles = collections.OrderedDict()      # name -> python object (hybrid instance or bare xobject)
         self.stale = set()
         self.last_target = None
+        self.last_field = None
         self.nh = 0
         self.ctx = {"component": "hyb", "universe": self.U.line(), "ops": self.ops}
 
@@ -291,6 +292,7 @@ class Case:
                 return
         self.ops.append(f"set {hn} {py} {word}")
         self.last_target = obj
+        self.last_field = py
         try:
             setattr(obj, py, val)
             self.exp.append("ok")
@@ -327,6 +329,7 @@ class Case:
         self.exp.append(self.desc(v))
         self.ops.append(f"set {hn} {py} i{name}")
         self.last_target = obj
+        self.last_field = py
         try:
             setattr(obj, py, v)
             self.exp.append("ok")
@@ -498,7 +501,17 @@ class Case:
             # offsets.  Everything reachable from the object the assignment went through must be right (not excused here).
             sp = self.stale_parts(obj)
             tgt = self.last_target
-            if sp and tgt is not None and not any(p is tgt or self.reaches(tgt, p) for p in sp):
+            fresh = None
+            if tgt is not None and self.last_field is not None:
+                try:
+                    fresh = getattr(tgt, self.last_field)      # what this assignment has just dressed
+                except Exception:
+                    fresh = None
+            if not hasattr(fresh, "_xobject"):
+                fresh = None
+            # excused: stale views that are NOT the part this assignment dressed (nor inside it) - earlier handles, earlier dressed
+            # objects of the container, cached referents that are earlier dressed objects of the replaced part
+            if sp and tgt is not None and not any(p is tgt for p in sp) and not (fresh is not None and any(p is fresh or self.reaches(fresh, p) for p in sp)):
                 self.fail("C18:stale-view-of-part-replaced-through-another-object",
                           f"after `{after}`: a part of {hn} has been assigned, through another object of the same memory, a value of the same size "
                           f"and another division; the view {hn} holds of it caches offsets { {k: int(v) for k, v in sp[0]._xobject._offsets.items()} } that are no longer those in the buffer")
@@ -698,6 +711,7 @@ def corpus_history(r, fails, tags):
     for name, kw in steps:
         before = len(c.ops)
         c.last_target = None
+        c.last_field = None
         try:
             getattr(c, name)(**kw)
         except KeyError:
@@ -725,6 +739,7 @@ def corpus_history2(r, fails, tags):
     for name, kw in steps:
         before = len(c.ops)
         c.last_target = None
+        c.last_field = None
         try:
             getattr(c, name)(**kw)
         except KeyError:
@@ -752,6 +767,7 @@ def corpus_history3(r, fails, tags):
     for name, kw in steps:
         before = len(c.ops)
         c.last_target = None
+        c.last_field = None
         try:
             getattr(c, name)(**kw)
         except KeyError:
@@ -769,6 +785,7 @@ def run_history(r, fails, tags, n_ops):
         k = r.choice(["new", "new", "get", "get", "set", "set", "set", "set", "alias", "copy", "move", "py"])
         before = len(c.ops)
         c.last_target = None
+        c.last_field = None
         getattr(c, "op_" + k)()
         if len(c.ops) > before:
             if not c.check_mirror(c.ops[-1]):
